@@ -1,6 +1,8 @@
 //! probe-env (C07): echoes what a program started through tiny-std's `_start` observes.
 //!
-//! stdin : lookup keys as records `u32le len | bytes` until EOF.
+//! stdin : records `u8 tag | u32le len | payload` until EOF:
+//!   'K' a lookup key
+//!   'P' peek request: u64le link-time address of the program header table, then N x u64le link-time addresses
 //! stdout: records `u8 tag | u32le len | payload`, in this order
 //!   'C' u64   args_os().len()
 //!   'a' bytes one per element yielded by args_os() (contents without the terminator)
@@ -13,6 +15,8 @@
 //!   'X' raw bytes of /proc/self/auxv as read by the probe
 //!   'r' 16 bytes the probe finds at the AT_RANDOM address of that auxv (empty when absent)
 //!   'e' string the probe finds at the AT_EXECFN address of that auxv (empty record + flag: [0] | [1]+bytes)
+//!   per 'P' request: 'B' u64 load base (AT_PHDR - link-time address of the program headers), then
+//!             'p' N x u64: the 8-byte words found at base + address (how the start-up code left relocated slots)
 //!   'T' 6 x i64: clock_gettime(CLOCK_MONOTONIC) syscall, MonotonicInstant::now(), syscall again (sec, nsec each)
 //!   'Z' end marker
 //! Values go to the wire through `rusl::unistd::write` loops directly from the memory the API returned.
@@ -27,6 +31,7 @@ use tiny_std::env::VarError;
 
 const AT_RANDOM: u64 = 25;
 const AT_EXECFN: u64 = 31;
+const AT_PHDR: u64 = 3;
 
 fn die(code: i32) -> ! {
     rusl::process::exit(code)
@@ -106,14 +111,18 @@ pub fn main() -> i32 {
     let mut input = Vec::new();
     read_fd_to_end(STDIN, &mut input);
     let mut pos = 0usize;
-    while pos + 4 <= input.len() {
-        let len = u32::from_le_bytes([input[pos], input[pos + 1], input[pos + 2], input[pos + 3]]) as usize;
-        pos += 4;
+    while pos + 5 <= input.len() {
+        let tag = input[pos];
+        let len = u32::from_le_bytes([input[pos + 1], input[pos + 2], input[pos + 3], input[pos + 4]]) as usize;
+        pos += 5;
         if pos + len > input.len() {
             die(93);
         }
         let key = &input[pos..pos + len];
         pos += len;
+        if tag != b'K' {
+            continue;
+        }
         rec(b'K', key);
         let mut z = Vec::with_capacity(len + 1);
         z.extend_from_slice(key);
@@ -158,6 +167,7 @@ pub fn main() -> i32 {
     rec(b'X', &auxv);
     let mut random_addr = 0u64;
     let mut execfn_addr = 0u64;
+    let mut phdr_addr = 0u64;
     let mut i = 0;
     while i + 16 <= auxv.len() {
         let mut k = [0u8; 8];
@@ -172,6 +182,8 @@ pub fn main() -> i32 {
             random_addr = v;
         } else if k == AT_EXECFN {
             execfn_addr = v;
+        } else if k == AT_PHDR {
+            phdr_addr = v;
         }
         i += 16;
     }
@@ -192,6 +204,34 @@ pub fn main() -> i32 {
         }
     } else {
         rec(b'e', &[0]);
+    }
+
+    // ---- peeks: words at link-time addresses, for the driver to compare with the relocation table
+    let mut pos = 0usize;
+    while pos + 5 <= input.len() {
+        let tag = input[pos];
+        let len = u32::from_le_bytes([input[pos + 1], input[pos + 2], input[pos + 3], input[pos + 4]]) as usize;
+        pos += 5;
+        let body = &input[pos..pos + len];
+        pos += len;
+        if tag != b'P' || len < 8 || len % 8 != 0 {
+            continue;
+        }
+        let word = |i: usize| {
+            let mut w = [0u8; 8];
+            w.copy_from_slice(&body[i * 8..i * 8 + 8]);
+            u64::from_le_bytes(w)
+        };
+        let base = phdr_addr.wrapping_sub(word(0));
+        rec(b'B', &base.to_le_bytes());
+        let n = len / 8 - 1;
+        let mut words = Vec::with_capacity(n * 8);
+        for i in 0..n {
+            let addr = base.wrapping_add(word(i + 1)) as *const u64;
+            let v = unsafe { core::ptr::read_volatile(addr) };
+            words.extend_from_slice(&v.to_le_bytes());
+        }
+        rec(b'p', &words);
     }
 
     // ---- clock: the (possibly vDSO) path bracketed by two real system calls
